@@ -241,6 +241,18 @@ def main(chk, args):
     fcases = [c for c in fcases if len(c['features']) > 3]
     inputs = [('stress%d' % v,) + stress_api(v) for v in range(2 if quick else 6)]
     inputs.append(('samples-config',) + stress_api(0))
+    # selective generation (omit mode): the allow-list of addresses is a set; >= 2 surviving messages per file
+    sapi, sopts = stress_api(0)
+    sapi['yaml'] = {'type': 'google.api.Service', 'config_version': 3, 'name': 'lib.example.com', 'publishing': {'library_settings': [
+        {'version': 'acme.lib.v1', 'python_settings': {'common': {'selective_gapic_generation': {'methods': [
+            'acme.lib.v1.Library.' + m for m in ('GetBook', 'CreateBook', 'ListBooks', 'StampBook', 'ExportBooks', 'GetAuthor')]
+            + ['acme.lib.v1.BookAdmin.Audit']}}}}]}}
+    inputs.append(('selective-omit', sapi, sopts))
+    # the alternative template set named by a RELATIVE directory; one of the two working directories holds a directory of
+    # that very name (the generator's own directory is what the option means, whatever the process was started in)
+    aapi, aopts = features.build(['o_ads', 'r_resource', 's_two_services', 'm_lro', 'f_map', 'f_enum', 'f_nested', 's_flatten', 'r_file_level',
+                                  'm_paged_map', 's_required'])
+    inputs.append(('ads-relative', aapi, aopts))
     inputs += [(featrun.key_of(c),) + features.build(c['features']) for c in fcases]
     traces = []
     with gen.scratch() as work:
@@ -249,6 +261,9 @@ def main(chk, args):
             os.makedirs(os.path.join(d, 'cfg'))
             with open(os.path.join(d, 'cfg', 'samples.yaml'), 'w') as f:
                 f.write(SAMPLE_CONFIG)
+        os.makedirs(os.path.join(cwd2, 'ads-templates', 'decoy'))
+        with open(os.path.join(cwd2, 'ads-templates', 'decoy', 'README.txt.j2'), 'w') as f:
+            f.write('not the generator\'s template set\n')
         for name, api, opts in inputs:
             ostr = gen.option_string(opts, work, api)
             if name == 'samples-config':
@@ -267,7 +282,7 @@ def main(chk, args):
                     f.write(rb)
             warm = ([([paths[0], paths[-1]], seeds[0], cwd1), ([paths[1], paths[-1]], seeds[1], cwd2), ([paths[2], paths[-1]], seeds[0], cwd2),
                      ([paths[-1], paths[-1]], seeds[-1], cwd1)]
-                    if name.startswith('stress') or not quick else [])
+                    if name.startswith('stress') or name in ('selective-omit', 'ads-relative') or not quick else [])
             with ThreadPoolExecutor(8) as ex:
                 fw = [ex.submit(run_warm, w) for w in warm]
                 res = list(ex.map(run_one, jobs))
